@@ -311,6 +311,11 @@ func c02Reconfigure(c *Ctx, n gnode, count bool) {
 		{"SetReadOnly()", func(g *gnode) {}, func(s stackage.Stack) { s.SetReadOnly() }},
 		{"SetNegativeIndices()", func(g *gnode) {}, func(s stackage.Stack) { s.SetNegativeIndices() }},
 		{"SetForwardIndices()", func(g *gnode) {}, func(s stackage.Stack) { s.SetForwardIndices() }},
+		// calls that are refused (no argument of a usable type) or have nothing to do with rendering
+		{"SetEncap('[' as a rune)", func(g *gnode) {}, func(s stackage.Stack) { s.SetEncap('[') }},
+		{"SetEncap(nil, 42)", func(g *gnode) {}, func(s stackage.Stack) { s.SetEncap(nil, 42) }},
+		{"SetEncap(3.5, struct{}{})", func(g *gnode) {}, func(s stackage.Stack) { s.SetEncap(3.5, struct{}{}) }},
+		{"SetID / SetCategory / SetAuxiliary", func(g *gnode) {}, func(s stackage.Stack) { s.SetID("an-id").SetCategory("a-category").SetAuxiliary() }},
 	}
 	size := len(n.String())
 	for _, tg := range targets {
